@@ -1,5 +1,6 @@
 """C20 - the importable runtime base class and the emitted runtime agree.  BE, differential: neither copy is trusted,
 each is the reference for the other."""
+import os
 import ast
 import datetime
 import inspect
@@ -234,6 +235,10 @@ def plan(tier, seed):
     return [
         {'name': 'helper-sets', 'cases': iter([{}]), 'runner': 'run_sets', 'chunk': 1},
         {'name': 'helper-pairs', 'cases': helper_cases(), 'runner': 'run_pairs', 'chunk': 3000},
+        # the written translation may carry any file name, also that of a module the runtime itself imports
+        {'name': 'written-file-names', 'cases': iter([{'stem': n} for n in ('calendar', 'datetime', 'decimal', 're', 'math', 'dateutil',
+                                                                              'typing', 'excel2pycl', 'translation', 'calendar')]),
+         'runner': 'run_file_names', 'chunk': 2},
         {'name': 'hand-written-subclass', 'cases': iter([{'wb': 'corpus'}, {'wb': 'ops'}, {'wb': 'criteria'}]), 'runner': 'run_subclass',
          'chunk': 1},
     ]
@@ -348,6 +353,47 @@ WORKBOOKS = {
                         'F1': '=VLOOKUP(5,A1:B4,2,0)', 'F2': '=MATCH("apple",A1:A4,0)', 'F3': '=INDEX(A1:B4,2,2)', 'F4': '=XMATCH(5,A1:A4)',
                         'F5': '=SEARCH("P",A3)', 'F6': '=NETWORKDAYS(DATE(2024,2,5),DATE(2024,2,16))'})],
 }
+
+
+FILE_WB = [('S', {'A1': datetime.datetime(2024, 2, 10), 'A2': datetime.datetime(2025, 7, 31), 'B1': '=EOMONTH(A1,0)', 'B2': '=DATEDIF(A1,A2,"MD")',
+                  'B3': '=DATEDIF(A1,A2,"YD")', 'B4': '=ROUND(2.675,2)', 'B5': '=SEARCH("b?","aBcd")', 'B6': '=EDATE(A1,13)',
+                  'B7': '=NETWORKDAYS(A1,A2)', 'B8': '=SUMIF(C1:C3,">1")', 'C1': 1, 'C2': 2, 'C3': 3, 'B9': '=YEAR(A2)&"-"&MONTH(A2)&"-"&DAY(A2)',
+                  'B10': '=ROUNDUP(-7.25,1)', 'B11': '=DATE(2024,14,-3)'})]
+
+
+def run_file_names(cases, stats):
+    import tempfile
+    from excel2pycl import Executor
+    vio = []
+    for i, c in enumerate(cases):
+        p = D.Parser().disable_safety_check().set_excel_file_path(D.build_xlsx(FILE_WB))
+        text = p.get_translation()
+        k2, gen, _ = D.load_class(text)
+        assert k2 == 'CLASS', (k2, gen)
+        d = tempfile.mkdtemp(prefix='c20-')
+        path = os.path.join(d, c['stem'] + '.py')
+        p.write_translation(path)
+        stats['transitions'] += 1
+        try:
+            ex_file = Executor().set_executed_class(class_file=path)
+            loaded = 'OK'
+        except Exception as e:  # noqa
+            ex_file, loaded = None, 'LOAD:' + type(e).__name__ + ': ' + str(e)[:120]
+        ex_obj = D.new_executor(gen)
+        for addr in sorted(FILE_WB[0][1]):
+            col, row = D.split_a1(addr)
+            b = D.eval_cell(ex_obj, 'S', col, row)
+            a = D.eval_cell(ex_file, 'S', col, row) if ex_file is not None else (loaded,)
+            stats['validated'] += 1
+            stats['nontrivial'] += 1
+            na = (a[0], repr(a[1])) if a[0] == 'VALUE' else (a[0],)
+            nb = (b[0], repr(b[1])) if b[0] == 'VALUE' else (b[0],)
+            if na != nb:
+                vio.append({'i': i, 'desc': {'helper': 'cell-members', 'workbook': 'file:' + c['stem'] + '.py', 'outcome': 'COPIES_DISAGREE'},
+                            'expected': 'class object: ' + repr(nb)[:200],
+                            'observed': {'loaded from file': repr(na)[:200], 'cell': addr, 'formula': str(FILE_WB[0][1][addr])[:80]}})
+                break
+    return vio
 
 
 def run_subclass(cases, stats):
